@@ -76,13 +76,20 @@ class UserProblem(Problem):
     def cons(self, x):
         return self._ret("cons", x.tobytes(), lambda: self.F.c(x))
 
+    def _int(self, M, const):
+        """spec["idtype"]: constant integer-valued matrices are returned with an integer dtype (a constant Jacobian built
+        from a list of ints, as in sp.sparse.coo_matrix([[1, 1]]))."""
+        if self.spec.get("idtype") and const and np.all(M.data == np.round(M.data)):
+            return M.astype(np.int64)
+        return M
+
     def cons_jac(self, x):
-        return self._ret("jac", x.tobytes(), lambda: to_sparse(self.F.jac(x), self.jpat, self.fmt),
+        return self._ret("jac", x.tobytes(), lambda: self._int(to_sparse(self.F.jac(x), self.jpat, self.fmt), self.jac_const),
                          const_ok=self.jac_const)
 
     def lag_hess(self, x, y):
         return self._ret("hess", x.tobytes() + y.tobytes(),
-                         lambda: to_sparse(self.F.hessL(x, y), self.hpat, self.fmt),
+                         lambda: self._int(to_sparse(self.F.hessL(x, y), self.hpat, self.fmt), self.hess_const),
                          const_ok=self.hess_const)
 
 
